@@ -210,10 +210,19 @@ func observe(c *Case, e Env, seed uint64) (text string, permuted []string) {
 				q = c.Project.Clone()
 				corruptBeforeBuild(q, pr)
 			}
-			must(MaterialiseAt("prior", q.Files))
-			if o := BuildPath(filepath.Join("prior", q.Root)); o.OK {
+			// half of the prior builds happen at the very paths of the observed project (the files
+			// are then put back): state keyed by path survives into the observed build
+			dir := "prior"
+			if pr.Chance(1, 2) {
+				dir = projDir
+			}
+			must(MaterialiseAt(dir, q.Files))
+			if o := BuildPath(filepath.Join(dir, q.Root)); o.OK {
 				call(o.japi, "ToJson")
 				call(o.japi, "ToOpenAPIJson")
+			}
+			if dir == projDir {
+				must(Materialise(c.Project.Files))
 			}
 		}
 	}
